@@ -30,6 +30,14 @@ def gen_cases(ck):
                       "bound_factor": float(ck.rng.choice([0.2, 0.45, 0.45, 1.6])), "renumber": True,
                       "cm": bool(ck.rng.integers(2)), "guess_frac": float(ck.rng.choice([0.0, 0.0, 0.3])),
                       "times": "equal"})
+    for i in range(8 if ck.tier == "quick" else 50):
+        # tall tissues with few, widely spaced junctions lying right of the diagonal (min x > max y), moved by more than 8 % of their
+        # width but less than 8 % of their height: the property's bound refers to the larger of the two extents
+        cases.append({"type": "series", "seed": int(ck.rng.integers(1 << 30)), "tissue": ["hex", "jitter"][i % 2], "sites": int(ck.rng.choice([16, 20])), "subset": None,
+                      "min_ridge": 0.01, "mobius": False, "kmin": 0, "kmax": 2, "angle": 0.0, "stretch": float(ck.rng.uniform(2.5, 5.0)),
+                      "scale": float(10.0 ** ck.rng.uniform(-1, 2)), "shift_in_extents": [float(ck.rng.uniform(6, 12)), 0.0],
+                      "nframes": int(ck.rng.integers(2, 5)), "field": "random", "bound_factor": 0.95, "renumber": True, "cm": False,
+                      "guess_frac": 0.0, "times": "equal"})
     return cases
 
 
@@ -58,6 +66,8 @@ def near_threshold(pool0, pool1, found_free=True):
 
 def run_case(ck, case, reqs, pending):
     np.seterr(all="raise")
+    if "shift_in_extents" in case:
+        case = dict(case, shift=[case["shift_in_extents"][0] * case["scale"], case["shift_in_extents"][1] * case["scale"]])
     s = ser.build_tracking_series(case)
     if s is None:
         ck.count("rejected_tissue"); return
@@ -93,7 +103,9 @@ def run_case(ck, case, reqs, pending):
             return
     ck.count("cm_on" if case["cm"] else "cm_off"); ck.count("frames", n)
     rejected = False
+    good_step = {}
     for t in range(n - 1):
+        good_step[t] = mapping[t] is not None and all(mapping[t].get(v) == succ[t][v] and succ[t][v] is not None for v in pool_ids[t])
         c0, c1 = seen[t]
         p0 = [(v, c0[v][0], c0[v][1]) for v in pool_ids[t]]
         p1 = [(v, c1[v][0], c1[v][1]) for v in pool_ids[t + 1]]
@@ -156,7 +168,7 @@ def run_case(ck, case, reqs, pending):
     # multi-step tracking queries through the model
     maps = [None if mapping[t] is None else [[int(k), None if v is None else int(v)] for k, v in mapping[t].items()] for t in range(n - 1)]
     tracks, want = [], []
-    for _ in range(12):
+    for _ in range(24):
         a, b = int(rng.integers(n)), int(rng.integers(n))
         if a == b or not pool_ids[a]:
             continue
@@ -170,6 +182,15 @@ def run_case(ck, case, reqs, pending):
         except AttributeError:
             r = {"raises": "AttributeError"}
         tracks.append([v, a, b]); want.append(r)
+        # S: when every step in between follows the true successors, a query over several steps (in either direction) returns the
+        # vertex that the junction is in the target frame
+        lo, hi = min(a, b), max(a, b)
+        if all(good_step.get(t) for t in range(lo, hi)):
+            truth = s.vid[b].get(jun_of[a].get(v))
+            if "ok" not in r or r["ok"] != truth:
+                ck.fail("tracking over several steps (forwards and backwards) follows the per-step correspondence",
+                        f"vertex {v} of frame {a} queried at frame {b}: got {r}, the junction is vertex {truth} there", case)
+            ck.count("multi_step_queries_checked_" + ("forward" if a < b else "backward") + ("_2plus" if hi - lo >= 2 else "_1"))
     reqs.append({"op": "series", "frames": [], "maps": maps, "velocities": [], "tracks": tracks})
     pending.append(("tracks", case, want))
     ck.case(case, nontrivial=True, sample=({"case": case, "frames": n, "end_points": [len(p) for p in pool_ids],
